@@ -489,6 +489,75 @@ def analyse_injectbounce(db, rep):
     return H.sites
 
 
+class TodoSkipHooks(TodoHooks):
+    """todo_do() from the idle state (no scan open): when may it return without scanning, and what does a scan start set"""
+    R = 1000
+
+    def __init__(self, sleep_todo):
+        super().__init__()
+        self.sleep_todo = sleep_todo
+
+    def tracked_global(self, path):
+        return super().tracked_global(path) or path in ('G:recent', 'G:nexttodorun')
+
+    def precise_arith(self, path):
+        return path in ('G:recent', 'G:nexttodorun') or super().precise_arith(path)
+
+    def prim_trigger_pulled(self, E, x, args):
+        return [Outcome(ret=fs(0), sets={'$pulled': fs(0)}), Outcome(ret=fs(1), sets={'$pulled': fs(1)})]
+
+    def prim_opendir(self, E, x, args):
+        self.count('opendir')
+        E.set('$tried', fs(1))
+        return [Outcome(ret=fs(0), log='opendir fails'), Outcome(ret=fs(('dir',)), sets={'$scan': fs(1)}, log='opendir ok')]
+
+    def prim_pausedir(self, E, x, args):
+        return [Outcome(ret=TOP)]
+
+    def prim_readdir(self, E, x, args):
+        self.count('readdir')
+        self.site('todo:nexttodorun=recent+SLEEP_TODO-when-a-scan-starts', x, g1(E, 'G:nexttodorun') == self.R + self.sleep_todo,
+                  'a scan started at time %d leaves nexttodorun=%s (documented recent + SLEEP_TODO = %d): the periodic rescan that catches a lost trigger is not scheduled' %
+                  (self.R, g1(E, 'G:nexttodorun'), self.R + self.sleep_todo), E)
+        return 'noreturn'
+
+    def on_return(self, E, fn, val):
+        if fn.name != 'todo_do' or g1(E, '$tried', 0):
+            return
+        self.count('skip')
+        ex = E.get('G:flagexitasap')
+        pulled = g1(E, '$pulled')
+        nd = g1(E, 'G:nexttodorun')
+        ok = ex == fs(1) or (pulled == 0 and nd is not None and self.R < nd)
+        self.site('todo:scan-skipped-only-if-not-pulled-and-not-due', None, ok,
+                  'todo_do returns without scanning with trigger_pulled()=%s recent=%d nexttodorun=%s: a pulled trigger (or the periodic rescan) is ignored' % (pulled, self.R, nd), E)
+
+
+def analyse_todo_skip(db, rep):
+    prog = db.program('qmail-send')
+    fn = prog.fn('todo_do', 'qmail-send.c')
+    sl = db.unit('qmail-send.c').macro_int('SLEEP_TODO')
+    if sl is None:
+        raise AnalysisBroken('SLEEP_TODO not found')
+    sites = {}
+    n = {'skip': 0, 'readdir': 0}
+    for nd in (900, 1000, 1001, 1100):
+        for ex in (0, 1):
+            H = TodoSkipHooks(sl)
+            eng = Engine(db, prog, H)
+            eng.run(fn, {'G:tododir': fs(0), 'G:flagexitasap': fs(ex), 'G:recent': fs(H.R), 'G:nexttodorun': fs(nd)})
+            rep.count_states(eng.states, eng.transitions)
+            for k, v in H.sites.items():
+                if k.startswith('todo:scan-skipped') or k.startswith('todo:nexttodorun'):
+                    if k not in sites or (sites[k][0] and not v[0]):
+                        sites[k] = v
+            for k in n:
+                n[k] += H.counts.get(k, 0)
+    if (n['skip'] < 1 or n['readdir'] < 1) and all(v[0] for v in sites.values()):
+        raise AnalysisBroken('todo_do: skip/scan-start paths not explored (%s)' % n)
+    return sites
+
+
 # =============================================================================== del_dochan
 class DelHooks(SendHooks):
     tracked = frozenset(['G:tododir', 'G:flagexitasap', 'G:dline', 'G:todoline', 'G:flagcleanup', 'G:concurrency', 'G:d'])
@@ -1031,114 +1100,198 @@ def analyse_main(db, rep):
     return H.sites
 
 
+class SelprepHooks(SendHooks):
+    """X_selprep(..., &wakeup) over every combination of its inputs: the final wake-up time"""
+    DT = {'G:pqchan[0]': 60, 'G:pqchan[1]': 70, 'G:pqfail': 80, 'G:pqdone': 90}
+    SPLIT = {'G:tododir': (0, ('&', 'DIR')), 'G:flagcleanup': (0, 1), 'G:flagexitasap': (0, 1), 'G:nexttodorun': (50, 150),
+             'G:cleanuptime': (40, 140), 'G:pass[0].id': (0, 5), 'G:pass[1].id': (0, 6)}
+    precise = frozenset(['L:c', 'L:j', 'L:i'])
+
+    def __init__(self, w0):
+        super().__init__()
+        self.w0 = w0
+        self.rows = []
+
+    def tracked_global(self, path):
+        return path.startswith('$') or path == 'WK' or path in self.SPLIT or path.startswith('G:pass[')
+
+    def materialize_split(self, E, path):
+        if path in self.SPLIT:
+            return [fs(v) for v in self.SPLIT[path]]
+        return None
+
+    def prim_del_avail(self, E, x, args):
+        c = g1v(args[0])
+        return [Outcome(ret=fs(0), sets={'$avail:%s' % c: fs(0)}), Outcome(ret=fs(1), sets={'$avail:%s' % c: fs(1)})]
+
+    def prim_job_avail(self, E, x, args):
+        return [Outcome(ret=fs(0), sets={'$job': fs(0)}), Outcome(ret=fs(1), sets={'$job': fs(1)})]
+
+    def prim_trigger_selprep(self, E, x, args):
+        return [Outcome(ret=TOP)]
+
+    def prim_prioq_min(self, E, x, args):
+        q = g1v(args[0])
+        pe = g1v(args[1])
+        if not (isinstance(q, tuple) and q[0] == '&' and q[1] in self.DT and isinstance(pe, tuple) and pe[0] == '&'):
+            raise AnalysisBroken('selprep: prioq_min() on an unknown queue %s' % (q,))
+        prev = g1(E, '$q:' + q[1])
+        if prev is not None:        # asked twice on one path: same answer
+            return [Outcome(ret=fs(1 if prev else 0), sets={pe[1] + '.dt': fs(self.DT[q[1]])} if prev else {})]
+        return [Outcome(ret=fs(0), sets={'$q:' + q[1]: fs(0)}),
+                Outcome(ret=fs(1), sets={'$q:' + q[1]: fs(1), pe[1] + '.dt': fs(self.DT[q[1]])})]
+
+    def on_return(self, E, fn, val):
+        if fn.name != self.entry:
+            return
+        row = {k: g1(E, k) for k in list(self.SPLIT) + ['$job', '$avail:0', '$avail:1'] + ['$q:' + q for q in self.DT]}
+        self.rows.append((row, g1(E, 'WK'), E.trace.list()))
+
+
+def g1v(v):
+    return next(iter(v)) if v is not TOP and v is not None and len(v) == 1 else None
+
+
+def selprep_expected(fname, row, w0):
+    """the documented wake-up time; None if the row cannot decide (an input was never consulted although it matters)"""
+    m = w0
+    if fname == 'pass_selprep':
+        if row['G:flagexitasap']:
+            return w0
+        for c in (0, 1):
+            if row['G:pass[%d].id' % c] and row['$avail:%d' % c]:
+                return 0
+        if row['$job']:
+            for c in (0, 1):
+                if not row['G:pass[%d].id' % c] and row['$q:G:pqchan[%d]' % c]:
+                    m = min(m, SelprepHooks.DT['G:pqchan[%d]' % c])
+        for q in ('G:pqfail', 'G:pqdone'):
+            if row['$q:' + q]:
+                m = min(m, SelprepHooks.DT[q])
+        return m
+    if fname == 'todo_selprep':
+        if row['G:flagexitasap']:
+            return w0
+        if row['G:tododir']:
+            return 0
+        return min(m, row['G:nexttodorun']) if row['G:nexttodorun'] is not None else None
+    if fname == 'cleanup_selprep':
+        if row['G:flagcleanup']:
+            return 0
+        return min(m, row['G:cleanuptime']) if row['G:cleanuptime'] is not None else None
+
+
 def selprep_sites(db):
-    """instance table of the assignments through the wakeup pointer (C16 timeout computation)"""
+    """the wake-up time each X_selprep leaves behind, for every combination of its inputs (C16 timeout computation)"""
     prog = db.program('qmail-send')
     out = {}
-    sources = set()
-    n = 0
-    for fname, need in (('pass_selprep', None), ('todo_selprep', None), ('cleanup_selprep', None)):
+    consulted = set()
+    for fname in ('pass_selprep', 'todo_selprep', 'cleanup_selprep'):
         fn = prog.fn(fname, 'qmail-send.c')
-        for x in fn.all_x():
-            if x.k != 'asg':
-                continue
-            l = x.args[0].strip()
-            if not (l.k == 'un' and l.op == '*' and l.args[0].path() == 'P:wakeup'):
-                continue
-            n += 1
-            g = fn.guards(x) or []
-            rhs = x.args[1]
-            if x.op == '=' and rhs.const == 0:
-                conds = {c.strip().src() for c, t in g if t is True}
-                if fname == 'pass_selprep':
-                    ok = any(s.endswith('.id') and 'pass' in s for s in conds) and any(s.startswith('del_avail(') for s in conds)
-                    why = 'needs an open pass and del_avail(c): otherwise select() is asked to return at once although pass_dochan can do nothing (busy loop)'
-                elif fname == 'todo_selprep':
-                    ok = 'tododir' in conds
-                    why = 'needs an open todo scan'
-                else:
-                    ok = 'flagcleanup' in conds
-                    why = 'needs a clean-up scan in progress'
-                out['selprep:%s:zero-timeout-only-when-work-is-pending' % fname] = (ok, x.where, '*wakeup = 0 guarded by %s; %s' % (sorted(conds), why), [])
-            elif x.op == '=':
-                e = rhs.sx()
-                ok = False
-                for c, t in g:
-                    cs = c.strip()
-                    if t is True and cs.k == 'bin' and cs.op == '>' and cs.args[0].strip().k == 'un' and cs.args[0].strip().args[0].path() == 'P:wakeup' and cs.args[1].sx() == e:
-                        ok = True
-                    if t is True and cs.k == 'bin' and cs.op == '<' and cs.args[1].strip().k == 'un' and cs.args[1].strip().args[0].path() == 'P:wakeup' and cs.args[0].sx() == e:
-                        ok = True
-                src = rhs.src()
-                if src.endswith('pe.dt'):
-                    qs = [c.strip().args[0].src() for c, t in g if t is True and c.strip().k == 'call' and c.strip().callee == 'prioq_min']
-                    src = 'min(%s)' % (qs[0] if qs else '?')
-                sources.add(src)
-                out['selprep:%s:min-update:%s' % (fname, src)] = (ok, x.where, '*wakeup = %s must be a min-update (guarded by *wakeup > %s)' % (rhs.src(), rhs.src()), [])
-            else:
-                out['selprep:%s:unexpected-update' % fname] = (False, x.where, 'wakeup updated with %s' % x.src(), [])
-    want = {'min(&pqchan[c])', 'min(&pqfail)', 'min(&pqdone)', 'nexttodorun', 'cleanuptime'}
-    out['selprep:every-due-time-source-lowers-the-wakeup'] = (want <= sources, 'qmail-send.c', 'due-time sources feeding the select timeout: %s (need %s)' % (sorted(sources), sorted(want)), [])
-    if n < 6:
-        raise AnalysisBroken('selprep: only %d assignments through wakeup found' % n)
-    # main: timeout computation
-    main = prog.fn('main', 'qmail-send.c')
-    eng = Engine(db, prog, SendHooks())
-    from qv.esp import Env
-    E = Env(eng, main, {}, {}, None)
+        nrows = 0
+        bad = None
+        for w0 in (100, 10):
+            H = SelprepHooks(w0)
+            H.entry = fname
+            eng = Engine(db, prog, H)
+            fid = eng.frame_id(fn)
+            store = {'WK': fs(w0)}
+            # the wake-up pointer is the parameter of type datetime_sec *: bind every pointer parameter that is not an fd_set/int count
+            for p_ in fn.params:
+                if 'datetime_sec' in fn.param_types.get(p_, ''):
+                    store['%s::%s' % (fid, p_)] = fs(('&', 'WK'))
+            eng.run(fn, store)
+            for row, wkv, tr in H.rows:
+                nrows += 1
+                for k, v in row.items():
+                    if v is not None:
+                        consulted.add((fname, k))
+                exp = selprep_expected(fname, row, w0)
+                if exp is None or wkv != exp:
+                    if bad is None:
+                        bad = ({k: v for k, v in row.items() if v is not None}, wkv, exp, tr)
+        if nrows < 4:
+            raise AnalysisBroken('%s: only %d input combinations explored' % (fname, nrows))
+        why = {'pass_selprep': 'zero only with an open pass AND del_avail(c) (otherwise select() returns at once although pass_dochan can do nothing: busy loop); else the minimum of the due times of pqchan[c] (idle channels, a job slot free), pqfail and pqdone',
+               'todo_selprep': 'zero while a todo scan is open, else min(wakeup, nexttodorun)',
+               'cleanup_selprep': 'zero while a clean-up scan is in progress, else min(wakeup, cleanuptime)'}[fname]
+        out['selprep:%s:wakeup-table' % fname] = (bad is None, 'qmail-send.c:' + fname,
+                                                 ('%d input combinations; %s' % (nrows, why)) if bad is None else
+                                                 ('inputs %s leave wakeup=%s, documented %s; %s' % (bad[0], bad[1], bad[2], why)), bad[3] if bad else [])
+    want = {('pass_selprep', '$q:G:pqchan[0]'), ('pass_selprep', '$q:G:pqchan[1]'), ('pass_selprep', '$q:G:pqfail'), ('pass_selprep', '$q:G:pqdone'),
+            ('todo_selprep', 'G:nexttodorun'), ('cleanup_selprep', 'G:cleanuptime')}
+    out['selprep:every-due-time-source-lowers-the-wakeup'] = (want <= consulted, 'qmail-send.c', 'due-time sources consulted: %s' % sorted(k for _, k in consulted & want), [])
+    # main: the select() timeout for every wake-up time the selprep functions can leave behind
     fuzz = db.unit('qmail-send.c').macro_int('SLEEP_FUZZ')
     forever = db.unit('qmail-send.c').macro_int('SLEEP_FOREVER')
     out['main:SLEEP_FUZZ>=1'] = (fuzz is not None and fuzz >= 1, 'qmail-send.c', 'SLEEP_FUZZ = %s' % fuzz, [])
-    found = 0
-    for x in main.all_x():
-        if x.k == 'asg' and x.op == '=' and (x.args[0].path() or '').endswith('.tv_sec') and (x.args[0].path() or '').startswith('L:tv'):
-            found += 1
-            g = main.guards(x) or []
-            wk = [p for p in ('main::' + d for d in {r for r in x.args[1].refs()} | {r for c, t in g for r in c.refs()}) if 'wakeup' in p]
-            if x.args[1].const == 0:
-                ok = False
-                for c, t in g:
-                    if 'wakeup' in c.src() and 'recent' in c.src():
-                        def ev(w, r):
-                            env = {}
-                            for y in c.walk():
-                                if y.k == 'cast' and y.op == 'LValueToRValue':
-                                    p = eng.canon(E, y.args[0])
-                                    if p and 'wakeup' in p:
-                                        env[p] = w
-                                    elif p == 'G:recent':
-                                        env[p] = r
-                            return eng.concrete(E, c, env)
-                        # zero timeout exactly when wakeup <= recent
-                        ok = all(bool(ev(w, 1000)) == ((w <= 1000) == t) or bool(ev(w, 1000)) == (w <= 1000) if t else bool(ev(w, 1000)) == (w > 1000)
-                                 for w in (0, 999, 1000, 1001, 5000))
-                        ok = all((bool(ev(w, 1000)) == t) == (w <= 1000) for w in (0, 999, 1000, 1001, 5000))
-                out['main:zero-timeout-iff-wakeup<=recent'] = (ok, x.where, 'tv.tv_sec = 0 must be chosen exactly when wakeup <= recent', [])
-            else:
-                def evr(w, r):
-                    env = {}
-                    for y in x.args[1].walk():
-                        if y.k == 'cast' and y.op == 'LValueToRValue':
-                            p = eng.canon(E, y.args[0])
-                            if p and 'wakeup' in p:
-                                env[p] = w
-                            elif p == 'G:recent':
-                                env[p] = r
-                    return eng.concrete(E, x.args[1], env)
-                vals = [(w, evr(w, 1000)) for w in (1001, 1010, 5000)]
-                ok = all(v is not None and v >= w - 1000 and v >= 1 for w, v in vals)
-                out['main:positive-timeout-covers-the-distance-to-wakeup'] = (ok, x.where, 'tv.tv_sec for wakeup-recent in (1,10,4000): %s' % [v for _, v in vals], [])
-    if found < 2:
-        raise AnalysisBroken('main: assignments to tv.tv_sec not found')
-    # wakeup starts at recent + SLEEP_FOREVER
-    okw = False
-    for x in main.all_x():
-        if x.k == 'asg' and x.op == '=' and (x.args[0].path() or '').startswith('L:wakeup'):
-            r = x.args[1].strip()
-            if r.k == 'bin' and r.op == '+' and {r.args[0].path(), r.args[1].path()} & {'G:recent'} and forever in (r.args[0].const, r.args[1].const):
-                okw = True
-    out['main:wakeup-starts-at-recent+SLEEP_FOREVER'] = (okw, 'qmail-send.c:main', 'wakeup must be initialised to recent + SLEEP_FOREVER each iteration', [])
+    main = prog.fn('main', 'qmail-send.c')
+    H = TimeoutHooks(forever)
+    eng = Engine(db, prog, H)
+    eng.run(main, {})
+    if H.counts.get('select', 0) < 4:
+        raise AnalysisBroken('main: select() reached on %d explored wake-up values only' % H.counts.get('select', 0))
+    for k, v in H.sites.items():
+        if k.startswith('main:zero-timeout') or k.startswith('main:positive-timeout') or k.startswith('main:wakeup-starts'):
+            out[k] = v
+    for k in ('main:zero-timeout-iff-wakeup<=recent', 'main:positive-timeout-covers-the-distance-to-wakeup', 'main:wakeup-starts-at-recent+SLEEP_FOREVER'):
+        if k not in out:
+            raise AnalysisBroken('main: %s not decided' % k)
     return out
+
+
+class TimeoutHooks(MainHooks):
+    """main() up to the first select(): tv.tv_sec as a function of the wake-up time"""
+    R = 1000
+    DELTAS = (-5, 0, 1, 10, 4000)
+
+    def __init__(self, forever):
+        super().__init__()
+        self.forever = forever
+
+    def tracked_global(self, path):
+        return super().tracked_global(path) or path == 'G:recent'
+
+    def precise_arith(self, path):
+        return True
+
+    def site(self, inst, x, ok, detail, E, kill=True):
+        if inst.startswith('main:zero-timeout') or inst.startswith('main:positive-timeout') or inst.startswith('main:wakeup-starts'):
+            super().site(inst, x, ok, detail, E, kill=False)
+
+    def prim_now(self, E, x, args):
+        return [Outcome(ret=fs(self.R))]
+
+    def _selprep(self, E, x, args):
+        wk = None
+        for i, a in enumerate(args):
+            v = g1v(a)
+            if isinstance(v, tuple) and v[0] == '&' and i < len(x.args) and 'datetime_sec' in (x.args[i].type or ''):
+                wk = v[1]
+        if x.callee != 'pass_selprep' or wk is None:
+            if x.callee == 'pass_selprep':
+                raise AnalysisBroken('main: pass_selprep() is not handed the wake-up time')
+            return [Outcome(ret=TOP)]
+        w0 = g1(E, wk)
+        self.site('main:wakeup-starts-at-recent+SLEEP_FOREVER', x, w0 == self.R + self.forever,
+                  'the wake-up time handed to the selprep functions starts at %s (documented recent + SLEEP_FOREVER = %d)' % (w0, self.R + self.forever), E)
+        return [Outcome(ret=TOP, sets={wk: fs(self.R + d), '$wk': fs(self.R + d)}) for d in self.DELTAS]
+
+    prim_pass_selprep = prim_todo_selprep = prim_cleanup_selprep = prim_comm_selprep = prim_del_selprep = _selprep
+
+    def prim_select(self, E, x, args):
+        self.count('select')
+        tvp = g1v(args[4]) if len(args) > 4 else None
+        w = g1(E, '$wk')
+        sec = g1(E, tvp[1] + '.tv_sec') if isinstance(tvp, tuple) and tvp[0] == '&' else None
+        if w is not None:
+            if w <= self.R:
+                self.site('main:zero-timeout-iff-wakeup<=recent', x, sec == 0, 'wakeup=%d recent=%d: select() timeout is %s s (documented 0: work is due now)' % (w, self.R, sec), E)
+            else:
+                self.site('main:zero-timeout-iff-wakeup<=recent', x, sec != 0, 'wakeup=%d recent=%d: select() timeout is 0 although nothing is due (busy loop)' % (w, self.R), E)
+                self.site('main:positive-timeout-covers-the-distance-to-wakeup', x, isinstance(sec, int) and sec >= w - self.R and sec >= 1 and sec <= w - self.R + 60,
+                          'wakeup=%d recent=%d: select() timeout is %s s (documented wakeup - recent + SLEEP_FUZZ)' % (w, self.R, sec), E)
+        return 'noreturn'
 
 
 def clamp_sites(db):
